@@ -30,6 +30,7 @@ type DaemonCfg struct {
 	L0CheckMs  int `json:"l0CheckMs"`  // Store.L0RetentionCheckInterval
 	ShutdownMs int `json:"shutdownMs"` // shutdown sync timeout
 	ValidateMs int `json:"validateMs"` // Store.ValidationInterval (0 = off)
+	AppAutoCkpt int `json:"appAutoCkpt"` // PRAGMA wal_autocheckpoint of the application's connection (0 = off, as in the other drivers)
 }
 
 func ms(n int) time.Duration { return time.Duration(n) * time.Millisecond }
@@ -111,8 +112,9 @@ func RunDaemonCase(c Case, baseDir string, d DaemonCfg) (evs []Event) {
 			seenL0: map[string]bool{}, seenRem: map[string]bool{}, ctx: context.Background()}
 		os.RemoveAll(cr.dir)
 		if err := cr.setup(); err == nil {
+			cr.conn.ExecContext(cr.ctx, fmt.Sprintf("PRAGMA wal_autocheckpoint=%d", d.AppAutoCkpt))
 			for _, st := range c.Sched {
-				if strings.HasPrefix(argStr(st, 0, ""), "App") {
+				if op := argStr(st, 0, ""); strings.HasPrefix(op, "App") || strings.HasPrefix(op, "Reader") {
 					cr.Step(st, true)
 				}
 				app, _, _, _, err := AppContent(cr.app, dict)
@@ -131,6 +133,7 @@ func RunDaemonCase(c Case, baseDir string, d DaemonCfg) (evs []Event) {
 		ev.Res = "setup:" + err.Error()
 		return append(evs, ev)
 	}
+	r.conn.ExecContext(r.ctx, fmt.Sprintf("PRAGMA wal_autocheckpoint=%d", d.AppAutoCkpt))
 	r.daemonObserve(&ev)
 	evs = append(evs, ev)
 	same := true // the application history of this run is still the one of the control run (no operation refused as busy)
@@ -174,7 +177,21 @@ func RunDaemonCase(c Case, baseDir string, d DaemonCfg) (evs []Event) {
 		case "RestoreCheck":
 			ev.Rest = r.Restore(0, time.Time{})
 		default:
-			if !strings.HasPrefix(ev.Op, "App") && ev.Op != "Fault" && ev.Op != "ClearFaults" {
+			if ev.Op == "StDisable" || ev.Op == "StEnable" { // the daemon's own enable / disable of the database, monitors running
+				if sto, ok := r.store.(*litestream.Store); ok && r.lsUp {
+					ctx, cancel := context.WithTimeout(r.ctx, 20*time.Second)
+					if ev.Op == "StDisable" {
+						ev.Res = errClass(sto.DisableDB(ctx, r.dbPath))
+					} else {
+						ev.Res = errClass(sto.EnableDB(ctx, r.dbPath))
+					}
+					cancel()
+				} else {
+					ev.Res = "skip"
+				}
+				break
+			}
+			if !strings.HasPrefix(ev.Op, "App") && !strings.HasPrefix(ev.Op, "Reader") && ev.Op != "Fault" && ev.Op != "ClearFaults" {
 				ev.Res = "skip"
 				break
 			}
@@ -184,7 +201,7 @@ func RunDaemonCase(c Case, baseDir string, d DaemonCfg) (evs []Event) {
 			ev.Rest = r.Restore(0, time.Time{})
 		}
 		r.daemonObserve(&ev)
-		if strings.HasPrefix(ev.Op, "App") && ev.Op != "AppCheckpoint" && ev.Res != "ok" {
+		if strings.HasPrefix(ev.Op, "App") && ev.Op != "AppCheckpoint" && ev.Res != "ok" && ev.Res != "skip" {
 			same = false
 		}
 		if same && i < len(ctl) {
